@@ -765,6 +765,14 @@ func (e *Env) evalCall(n *ast.CallExpr) Value {
 			return e.fail("unknown identifier: sinkbuf of a writer that is not a known bytes.Buffer")
 		}
 		return e.x.ptrValue(e.st, types.NewPointer(p.Sub), p)
+	case "srcreader":
+		// srcreader(r): the *bytes.Reader an io.Reader value reads from, when that is known in this activation
+		v := e.eval(n.Args[0])
+		p, class := e.x.resolveSinkValue(e.st, v, 0)
+		if class != sinkKnown || p == nil || typeKey(p.Sub) != "bytes.Reader" {
+			return e.fail("unknown identifier: srcreader of a reader that is not a known bytes.Reader")
+		}
+		return e.x.ptrValue(e.st, types.NewPointer(p.Sub), p)
 	case "binsize":
 		// binsize(v): the number of bytes encoding/binary writes for the value held by interface v
 		// (known only when the interface value was made in this activation)
